@@ -319,12 +319,6 @@ def C10_response_full : Prop :=
     (required optional subj : List (ReqAttr α)) (bestEffort : Bool),
     specResponse c identity required optional subj (authnRelease c identity required optional subj bestEffort) = true
 
-/-- `apply_policy` raised `MissingValue` (decidable side condition). -/
-def restrictMissing (c : Ctx α ρ) (identity : Ava α) (required optional subj : List (ReqAttr α)) : Bool :=
-  match policyRestrict c identity required optional subj with
-  | .error .missing => true
-  | _ => false
-
 /-- The statement holds whenever the policy does not raise `MissingValue`. -/
 theorem C10_response_partial (c : Ctx α ρ) (identity : Ava α) (required optional subj : List (ReqAttr α))
     (bestEffort : Bool) (hside : restrictMissing c identity required optional subj = false) :
@@ -414,7 +408,13 @@ theorem C10_tables_pinned :
 
 /-! ### non-vacuity: concrete instances -/
 
-deriving instance DecidableEq for Except
+/-- `Except` has no `DecidableEq` in core; a local one for the examples below. -/
+private instance exceptDecEq : DecidableEq (Except Err (Ava Nat)) := fun a b =>
+  match a, b with
+  | .ok x, .ok y => if h : x = y then isTrue (h ▸ rfl) else isFalse (fun e => h (by cases e; rfl))
+  | .error x, .error y => if h : x = y then isTrue (h ▸ rfl) else isFalse (fun e => h (by cases e; rfl))
+  | .ok _, .error _ => isFalse (fun e => by cases e)
+  | .error _, .ok _ => isFalse (fun e => by cases e)
 
 private def uid : ReqAttr Nat := { name := 10 }
 private def mailWith (vs : List Nat) : ReqAttr Nat := { name := 20, values := vs }
@@ -451,5 +451,26 @@ example : authnRelease (natCtx []) [(10, .list [100])] [{ name := 30 }] [] [] fa
 example : restrictMissing (natCtx []) [(10, .list [100])] [uid] [] [] = false := by decide
 example : unavailable natOps [] [(10, .list [100])] { name := 30 } = true := by decide
 example : catsInEffect (natCtx []) = none := by decide
+-- hypotheses of the category theorems are satisfiable: a governing item list, a fixed point of `pinEntry`, and one that is not
+private def catCtx : Ctx Nat Nat :=
+  { natCtx [(1, some { entCats := [[{ key := .single 77, attrs := [10], onlyRequired := true }]] })] with spCats := [77] }
+example : catsInEffect catCtx = some [{ key := .single 77, attrs := [10], onlyRequired := true }] := by decide
+example : pinEntry (fun k => k == 77) (fun a => a == 5) { key := .single 77, attrs := [10], onlyRequired := true }
+    = { key := .single 77, attrs := [10], onlyRequired := true } := by decide
+example : pinEntry (fun k => k == 77) (fun a => a == 5) { key := .single 77, attrs := [10] }
+    ≠ { key := .single 77, attrs := [10] } := by decide
+-- precedence through the registration authority (entity 3) and through the default section (entity 1)
+example : ({ natCtx [(1, some { failOnMissing := some true }), (3, some { failOnMissing := some false })] with
+             ra := some 3 } : Ctx Nat Nat).section.map (·.failOnMissing) = some (some false) := by decide
+example : (natCtx [(1, some { failOnMissing := some false }), (3, some { failOnMissing := some true })]).section.map
+    (·.failOnMissing) = some (some false) := by decide
+-- `Policy.restrict` adds the subject-id requirement entries that metadata does not list already
+example : addSubjectReqs [uid] [uid, mailWith []] = [uid, mailWith []] := by decide
+-- `apply_policy` leaves the released entries in the assertion dictionary, in the identity's order
+example : selfAfter [(10, .list [100]), (20, .list [200]), (30, .scalar 300)] [(30, .scalar 300), (10, .list [100])]
+    = [(10, .list [100]), (30, .scalar 300)] := by decide
+-- `setup_assertion` honouring best_effort = False, and `create_attribute_response`: an error, no assertion
+example : setupAssertion (natCtx []) [(10, .list [100])] [{ name := 30 }] [] [] false = .errorResponse := by decide
+example : attributeRelease (natCtx []) [(10, .list [100])] [{ name := 30 }] [] [] = .raised .missing := by decide
 
 end C10
